@@ -45,5 +45,9 @@ Fixpoint tok_of_sx (x : sx) : tok :=
   | SxL [SxZ 23; l] => ThematicBreak (str_of_sx l)
   | SxL [SxZ 24; c] => HtmlBlock (str_of_sx c)
   | SxL [SxZ 25; ch] => Document (kids ch)
+  | SxL [SxZ 26] => BlankLine
+  | SxL [SxZ 27; l; d; t; dt; td] =>
+    LinkRefDef (mkLrd (str_of_sx l) (str_of_sx d) (str_of_sx t) (str_of_sx dt) (str_of_sx td))
+  | SxL [SxZ 28; ch] => LinkRefDefBlock (kids ch)
   | _ => RawText []
   end.
